@@ -2,7 +2,7 @@
 """Detection under refactoring: every seeded bug is applied to a scratch copy, then one of the
 package-wide behaviour-preserving transformations of tools_xform.py is applied ON TOP, and the check
 of the bug's own property must still report it.  (Not one of the registered checks.)
-usage: tools_xform_bugs.py [kind ...]     default kinds: locals cmp tmp"""
+usage: [ONLY=<substring of seed id>] tools_xform_bugs.py [kind ...]     default kinds: locals cmp tmp"""
 import ast, glob, json, os, shutil, subprocess, sys, tempfile
 from concurrent.futures import ProcessPoolExecutor
 import tools_xform as X
@@ -47,6 +47,8 @@ def main():
         m = json.load(open(d + '/meta.json'))
         if 'benign' in n or m.get('kind', '').startswith(('behaviour', 'refactoring', 'benign')):
             continue
+        if os.environ.get('ONLY') and os.environ['ONLY'] not in n:
+            continue          # e.g. ONLY=-r7- : one round's seeds
         for k in kinds:
             jobs.append((d, k))
     bad = 0
